@@ -30,8 +30,18 @@ EXTENDS Integers, Sequences, FiniteSets, TLC, Json
 
 CONSTANTS ExcludedConsulted,   \* BOOLEAN: FALSE = as pinned, TRUE = with the proposed repair
           Mut                  \* "none" | "nohandler" | "swap" | "ctxdefault" | "nopanicjoin" | "skipreported"
+                               \* | "sentinelfirst" (ErrIteratorSkip / io.EOF cases moved before the panic cases)
+                               \* | "ctxfirst" (... and the context case too)
 
 (* ---------------------------------------------------------------- vocabulary *)
+
+\* panic(v) where v IS or WRAPS (fmt.Errorf("...: %w", s)) one of the sentinels the worker groups give a
+\* meaning of their own: io.EOF, ErrIteratorSkip, context.Canceled, the excluded sentinel X, ErrCurrentOpAbort.
+\* One kind per sentinel: "panicW_EOF", "panicW_SKIP", ...
+WrapSentinels     == {"EOF", "SKIP", "CTX", "X", "ABORT"}
+PanicWrapKind(s)  == "panicW_" \o s
+PanicWrapKinds    == {PanicWrapKind(s) : s \in WrapSentinels}
+WrappedIn(kind)   == CHOOSE s \in WrapSentinels : kind = PanicWrapKind(s)
 
 \* what the user function (Processor / Transform / generator Producer) does for an item
 Kinds == {"ok",          \* returns nil
@@ -45,6 +55,8 @@ Kinds == {"ok",          \* returns nil
           "abort",       \* returns ers.ErrCurrentOpAbort
           "ctx",         \* returns context.Canceled (the group's context is NOT cancelled)
           "excl"}        \* returns the sentinel X (listed in ExcludedErrors iff o.exc)
+         \cup PanicWrapKinds
+
 
 \* ContinueOnError, ContinueOnPanic, IncludeContextExpirationErrors, X \in ExcludedErrors
 Opts == [coe : BOOLEAN, cop : BOOLEAN, inc : BOOLEAN, exc : BOOLEAN]
@@ -71,19 +83,25 @@ ErrVal(kind) ==
       [] kind = "abort"      -> {"ABORT"}
       [] kind = "ctx"        -> {"CTX"}
       [] kind = "excl"       -> {"X"}
+      \* ParsePanic: Join(v, ErrRecoveredPanic) - errors.Is finds the sentinel inside the panic value as well
+      [] kind \in PanicWrapKinds -> {WrappedIn(kind)} \cup PanicMark
 
 \* opts.go:81-109, branch by branch, in the order of the switch
 Classify(kind, o) ==
     LET v == ErrVal(kind)
         hadPanic == "PANIC" \in v                                          \* :86
         R(rep, cont) == [report |-> rep, cont |-> cont, is |-> IF rep THEN v ELSE {}]
+        \* the order of the switch matters for a panic whose value is / wraps a sentinel: the panic cases come FIRST
+        early == IF Mut = "sentinelfirst" THEN {"SKIP", "EOF"} ELSE IF Mut = "ctxfirst" THEN {"SKIP", "EOF", "CTX"} ELSE {}
+        Sentinel(x) == x \in v /\ (~hadPanic \/ x \in early)
+        panicCase == hadPanic /\ ~\E x \in early : x \in v
     IN  IF kind = "ok" THEN R(FALSE, TRUE)                                  \* :82-84  err == nil
-        ELSE IF hadPanic /\ ~o.cop THEN R(Mut # "nohandler", FALSE)         \* :89-91
-        ELSE IF hadPanic /\ o.cop THEN R(TRUE, TRUE)                        \* :92-94
-        ELSE IF "SKIP" \in v THEN R(Mut = "skipreported", TRUE)             \* :95-96
-        ELSE IF "EOF" \in v THEN R(FALSE, FALSE)                            \* :97-98
-        ELSE IF "CTX" \in v THEN R(o.inc \/ Mut = "ctxdefault", FALSE)      \* :99-104
-        ELSE \* :105-107  default: o.ErrorHandler(err); return o.ContinueOnError
+        ELSE IF panicCase /\ ~o.cop THEN R(Mut # "nohandler", FALSE)        \* :89-91
+        ELSE IF panicCase /\ o.cop THEN R(TRUE, TRUE)                       \* :92-94
+        ELSE IF Sentinel("SKIP") THEN R(Mut = "skipreported", TRUE)         \* :95-96
+        ELSE IF Sentinel("EOF") THEN R(FALSE, FALSE)                        \* :97-98
+        ELSE IF Sentinel("CTX") THEN R(o.inc \/ Mut = "ctxdefault", FALSE)  \* :99-104
+        ELSE \* :105-107  default: o.ErrorHandler(err) unless excluded; return o.ContinueOnError
              R(~(ExcludedConsulted /\ o.exc /\ "X" \in v),
                IF Mut = "swap" THEN ~o.coe ELSE o.coe)
 
@@ -101,6 +119,9 @@ Contract(kind, o) ==
       [] kind \in {"err", "wrapped"} -> C("must", IF o.coe THEN "must" ELSE "mustnot")
       \* "... and ErrRecoveredPanic for a panic"; ContinueOnPanic decides
       [] kind \in {"panicErr", "panicStr", "panicOther"} -> C("must", IF o.cop THEN "must" ELSE "mustnot")
+      \* a panic is a panic whatever its value: "an error or panic ... is never swallowed ... ErrRecoveredPanic for
+      \* a panic" - also when the value is / wraps io.EOF, ErrIteratorSkip, a context error, an excluded error
+      [] kind \in PanicWrapKinds -> C("must", IF o.cop THEN "must" ELSE "mustnot")
       \* "ErrIteratorSkip ... never reported"; with ContinueOnError every item is still processed
       [] kind = "skip" -> C("never", IF o.coe THEN "must" ELSE "any")
       \* "io.EOF ... never reported"; whether it stops anybody is not said (5.0)
@@ -119,12 +140,18 @@ Need(kind) ==
     CASE kind \in {"err", "wrapped"} -> {"E"}
       [] kind = "panicErr" -> {"E", "PANIC"}
       [] kind \in {"panicStr", "panicOther"} -> {"PANIC"}
+      \* whether errors.Is also finds the wrapped sentinel is not judged: "finds the original error" and "io.EOF ...
+      \* never reported" pull in opposite directions (MayCarry)
+      [] kind \in PanicWrapKinds -> {"PANIC"}
       [] kind = "ctx" -> {"CTX"}
       [] kind = "excl" -> {"X"}
       [] OTHER -> {}
 
 \* the sentinels that must never be found in a result, whatever happened
 NeverFound(o) == {"EOF", "SKIP"} \cup (IF o.inc THEN {} ELSE {"CTX"}) \cup (IF o.exc THEN {"X"} ELSE {})
+
+\* a never-reported sentinel that is the VALUE of a reported panic may or may not be found in the result
+MayCarry(kind) == IF kind \in PanicWrapKinds THEN {WrappedIn(kind)} ELSE {}
 
 RefinesCell(kind, o) ==
     LET a == Classify(kind, o)
@@ -134,5 +161,5 @@ RefinesCell(kind, o) ==
         /\ (c.cont = "must"    => a.cont)
         /\ (c.cont = "mustnot" => ~a.cont)
         \* nothing that may never be found is ever handed to the collector
-        /\ a.is \cap NeverFound(o) = {}
+        /\ a.is \cap (NeverFound(o) \ MayCarry(kind)) = {}
 =============================================================================
